@@ -2,6 +2,7 @@ import SMV.Props.C08Hist
 import SMV.Props.C07Decl
 import SMV.Props.C13
 import SMV.Props.C15
+import SMV.Props.RefineVeto
 namespace SMV.Witness
 open SMV
 
@@ -118,6 +119,22 @@ def envRefuse : Env := fun h c =>
   match c.kind with
   | .cond => ⟨.bool (c.name == g1), none⟩
   | _ => envAllow h c
+
+/-- the around callback `w1` vetoes with `ActionFailed`, guards answer true -/
+def envVeto : Env := fun h c =>
+  match c.kind with
+  | .aroundBefore => ⟨if c.name = w1 then .abort (.actionFailed w1) else .proceed, none⟩
+  | _ => envAllow h c
+
+example : Refine.Scripted envVeto ⟨fun n => n == g1 || n == g2, fun a => if a = w1 then some (.actionFailed w1) else none⟩ := by
+  refine ⟨?_, ?_, ?_, ?_, ?_⟩
+  · intro h c hk; simp [envVeto, envAllow, hk]
+  · intro h c hk
+    simp only [envVeto, hk]
+    by_cases hn : c.name = w1 <;> simp [hn]
+  · intro h c hk; simp [envVeto, envAllow, hk]
+  · intro h c hk; simp [envVeto, envAllow, hk]
+  · intro h c hk; simp [envVeto, envAllow, hk]
 
 /-- a complete run on the model: from `A`, `go` lands on `Dd`, the initial leaf of `P`, having called the
     hooks in the documented order; a refused `go` leaves `A`; `stop` is not declared from `A` -/
